@@ -364,6 +364,12 @@ class IkeSa(object):
         # AUTH is computed over the octets that were received, not over a re-serialisation of what was understood (RFC 7296 2.15)
         message.received_data = bytes(data)
 
+        # before we have keys, the only acceptable messages are those of the IKE_SA_INIT exchange: anything else cannot be authentic,
+        # and whatever we answered would have to go out unprotected
+        if self.peer_crypto is None and message.exchange_type != Message.Exchange.IKE_SA_INIT:
+            self.log_error(f'Received a {message.exchange_type.name} message for an IKE_SA that has no keys yet. Ignoring')
+            return None
+
         # once we have keys, the only acceptable IKE_SA_INIT message is a retransmission of the request
         if self.peer_crypto is not None and message.exchange_type == Message.Exchange.IKE_SA_INIT:
             if (message.is_request and message.is_initiator != self.is_initiator and message.message_id == 0
